@@ -44,6 +44,10 @@ pub fn silence_panics() {
             "panic".to_string()
         };
         let loc = info.location().map(|l| format!(" at {}:{}", l.file(), l.line())).unwrap_or_default();
+        if std::thread::current().name() == Some("main") {
+            // never the subject (it runs under `guarded` or on its own threads): a harness error
+            eprintln!("MACHINERY: harness panic on the main thread: {}{}", msg, loc);
+        }
         if let Ok(mut g) = PANICS.lock() {
             if g.len() > 10_000 {
                 g.clear();
